@@ -251,15 +251,24 @@ def uncovered (steps : List SetStep) : List (Nat × Key) :=
     ((keysOf [] [p.2.before, p.2.after]).filter (fun k =>
       !(p.2.before.get k == p.2.after.get k || handedOver p.2.hooks k (p.2.after.get k)))).map (fun k => (p.1, k)))
 
+/-- a failing clause is explained only by the exact complement of a proved theorem:
+    `cpd`  value divergence on a key for which hypothesis (H2) of `values_converge_partial` fails
+           (then two concurrent puts and a delete that saw only one of them exist: `sigCpd`);
+    `dup`  … on a key for which (H1) fails (some delta puts it twice) while (H2) holds;
+    `revive` the uncovered change is a revival, the exception of `hooks_cover_changes_or_revival` -/
 def explainSet (fl : List String) (s : SSim) (finals : List View) (keys : List Key) : String :=
   let dk := divergingKeys finals keys
+  let ds := s.deltas.map (·.d)
+  let h2 := fun k => maxSurvivesK ds k
+  let h1 := fun k => singlePutK ds k
   let tags : List (String × Bool) :=
-    [ ("cpd", fl.contains "values_converge" && dk.any (sigCpd s.deltas)),
-      ("dup", fl.contains "values_converge" && dk.any (fun k => !sigCpd s.deltas k && sigDup s.deltas k)),
+    [ ("cpd", fl.contains "values_converge" && dk.any (fun k => !h2 k && sigCpd s.deltas k)),
+      ("dup", fl.contains "values_converge" && dk.any (fun k => h2 k && !h1 k && sigDup s.deltas k)),
       ("revive", fl.contains "tracker_informed" && (uncovered s.steps).any s.revive.contains),
       ("unexplained",
         fl.contains "members_converge" || fl.contains "order_per_cid" ||
-        (fl.contains "values_converge" && (dk.isEmpty || dk.any (fun k => !sigCpd s.deltas k && !sigDup s.deltas k))) ||
+        (fl.contains "values_converge" && (dk.isEmpty || dk.any (fun k =>
+          !((!h2 k && sigCpd s.deltas k) || (h2 k && !h1 k && sigDup s.deltas k))))) ||
         (fl.contains "tracker_informed" && (uncovered s.steps).any (fun q => !s.revive.contains q))) ]
   "+".intercalate ((tags.filter (·.2)).map (·.1))
 
